@@ -121,6 +121,22 @@ func registerModels(P *Program) {
 	m["(*github.com/go-errors/errors.Error).Error"] = func(ex *Exec, fn *ssa.Function, args []Value) (Value, bool) {
 		return "<error>", true
 	}
+	m["strings.Join"] = func(ex *Exec, fn *ssa.Function, args []Value) (Value, bool) {
+		sl := args[0].(Slice)
+		sep, ok := args[1].(string)
+		if !ok {
+			return nil, false
+		}
+		parts := make([]string, sl.Len)
+		for i := range parts {
+			p, ok := ex.load(sl.A.E[sl.Off+i]).(string)
+			if !ok {
+				return nil, false
+			}
+			parts[i] = p
+		}
+		return strings.Join(parts, sep), true
+	}
 	m["fmt.Sprintf"] = func(ex *Exec, fn *ssa.Function, args []Value) (Value, bool) {
 		format, ok := args[0].(string)
 		if !ok {
